@@ -14,7 +14,8 @@ MANIFEST = {
 }
 THEOREMS = ["C17_deposit_below_limit", "C17_borrow_below_limit_and_utilisation", "C17_withdraw_all_utilisation",
             "C17_capacity_is_safe", "C17_deposit_instruction_respects_limit",
-            "C17_borrow_instruction_respects_limit_and_utilisation", "C17_withdraw_instruction_keeps_utilisation"]
+            "C17_borrow_instruction_respects_limit_and_utilisation", "C17_withdraw_instruction_keeps_utilisation",
+            "C17_up_to_limit_never_fails_for_capacity", "C17_up_to_limit_books_min"]
 RULE = ("level B: operation sequences on the real Bank/BankAccountWrapper with limits 0, 1, 10^k, random, u64::MAX; level C: real "
         "instruction handlers with banks funded by a lender, borrowers near their limit, clock advances, and deposits flagged "
         "'up to limit' with amounts far above the capacity. Non-trivial = a sequence in which a limit was active and at least "
